@@ -286,7 +286,7 @@ def run(prop: str, tier: str) -> int:
     v.add_tlc(res, cfg)
     if res.violated:
         v.violation(f"TLC: {res.violated} violated in the waitforevent model", {"kind": "tlc", "tail": res.stdout[-3000:]})
-    a = tlc.require_ok(tlc.run_tlc("MC_WaitForEvent", "MC_WaitForEvent_asis.cfg", timeout=900), "waitforevent as-is self-test")
+    a = tlc.require_ok(tlc.run_tlc("MC_WaitForEvent", "MC_WaitForEvent_asis.cfg", timeout=2400), "waitforevent as-is self-test")
     v.notes["asis_selftest"] = {"AsIsLastWins=TRUE violates": a.violated}
     if a.violated != "Outcome":
         raise tlc.MachineryError(f"self-test: last-match-wins should violate Outcome, got {a.violated}")
